@@ -1,5 +1,5 @@
 (* Proofs/DerP.v — lemmas about Model/Der.v (C10). *)
-From PV Require Import Base.Bytes Base.Outcome Model.Der.
+From PV Require Import Base.Bytes Base.Outcome Model.Der Spec.DerStrictSpec.
 From Coq Require Import ZifyBool ZifyNat ZifyN.
 Local Open Scope N_scope.
 
@@ -468,4 +468,119 @@ Proof.
       apply (f_equal (@length byte)) in E4. unfold drop in E4. rewrite skipn_length, app_length in E4.
       cbn [length] in E4. lia. }
     rewrite Hn. reflexivity.
+Qed.
+
+(* ---- the encoder's output for 1 <= r, s < 2^256 has the BIP66 shape ---------------------------- *)
+Lemma der_content_shape v : 0 < v ->
+  exists b0 tl, der_content v = b0 :: tl /\ b2n b0 <= 127 /\
+    (b2n b0 = 0 -> exists b1 tl', tl = b1 :: tl' /\ 128 <= b2n b1).
+Proof.
+  intros Hv. destruct (hexbytes_head v Hv) as (d & tl & Eh & Hd & _).
+  unfold der_content. rewrite Eh. cbn [head_n]. rewrite b2n_n2b by lia.
+  destruct (d <=? 127) eqn:E.
+  - exists (n2b d), tl. rewrite b2n_n2b by lia. repeat split; lia.
+  - exists x00, (n2b d :: tl). change (b2n x00) with 0. repeat split; [lia|].
+    intros _. exists (n2b d), tl. rewrite b2n_n2b by lia. split; [reflexivity|lia].
+Qed.
+
+Lemma nth_skip4 (a b c d : byte) (cr rest : bytes) j :
+  nth (4 + length cr + j) (a :: b :: c :: d :: cr ++ rest) x00 = nth j rest x00.
+Proof. cbn [Nat.add nth]. rewrite app_nth2 by lia. f_equal. lia. Qed.
+
+Lemma nth_in4 (a b c d : byte) (cr rest : bytes) j : (j < length cr)%nat ->
+  nth (4 + j) (a :: b :: c :: d :: cr ++ rest) x00 = nth j cr x00.
+Proof. intros H. cbn [Nat.add nth]. apply app_nth1. exact H. Qed.
+
+Lemma bip66_layout (cr cs : bytes) (ht r0 s0 : byte) rt st :
+  cr = r0 :: rt -> cs = s0 :: st ->
+  b2n r0 <= 127 -> b2n s0 <= 127 ->
+  (b2n r0 = 0 -> exists b1 tl', rt = b1 :: tl' /\ 128 <= b2n b1) ->
+  (b2n s0 = 0 -> exists b1 tl', st = b1 :: tl' /\ 128 <= b2n b1) ->
+  (length cr <= 33)%nat -> (length cs <= 33)%nat ->
+  bip66_valid (x30 :: n2b (N.of_nat (length (x02 :: n2b (N.of_nat (length cr)) :: cr)
+                                    + length (x02 :: n2b (N.of_nat (length cs)) :: cs)))
+               :: x02 :: n2b (N.of_nat (length cr)) :: cr
+               ++ (x02 :: n2b (N.of_nat (length cs)) :: cs ++ [ht])) = true.
+Proof.
+  intros Ecr Ecs Hr0 Hs0 Hr1 Hs1 Hlr Hls.
+  set (Lr := length cr) in *. set (Ls := length cs) in *.
+  assert (HLr : (1 <= Lr)%nat) by (unfold Lr; rewrite Ecr; cbn [length]; lia).
+  assert (HLs : (1 <= Ls)%nat) by (unfold Ls; rewrite Ecs; cbn [length]; lia).
+  set (T := N.of_nat (length (x02 :: n2b (N.of_nat Lr) :: cr) + length (x02 :: n2b (N.of_nat Ls) :: cs))).
+  assert (HT : T = N.of_nat (4 + Lr + Ls)) by (unfold T; cbn [length]; fold Lr Ls; lia).
+  set (rest := x02 :: n2b (N.of_nat Ls) :: cs ++ [ht]).
+  set (sig := x30 :: n2b T :: x02 :: n2b (N.of_nat Lr) :: cr ++ rest).
+  assert (Hsize : N.of_nat (length sig) = N.of_nat (7 + Lr + Ls)).
+  { unfold sig, rest. cbn [length]. rewrite app_length. cbn [length]. rewrite app_length. cbn [length].
+    fold Lr Ls. lia. }
+  assert (A0 : at_ sig 0 = 48) by reflexivity.
+  assert (A1 : at_ sig 1 = T) by (unfold at_, sig; cbn [N.to_nat Pos.to_nat Pos.iter_op nth]; apply b2n_n2b; lia).
+  assert (A2 : at_ sig 2 = 2) by reflexivity.
+  assert (A3 : at_ sig 3 = N.of_nat Lr) by (unfold at_, sig; cbn [N.to_nat Pos.to_nat Pos.iter_op Nat.add nth]; apply b2n_n2b; lia).
+  assert (A4 : at_ sig 4 = b2n r0).
+  { unfold at_, sig. change (N.to_nat 4) with (4 + 0)%nat. rewrite nth_in4 by lia. rewrite Ecr. reflexivity. }
+  assert (A5 : (1 < Lr)%nat -> b2n r0 = 0 -> 128 <= at_ sig 5).
+  { intros H1 H0. destruct (Hr1 H0) as (b1 & tl' & Ert & Hb1).
+    unfold at_, sig. change (N.to_nat 5) with (4 + 1)%nat. rewrite nth_in4 by lia.
+    rewrite Ecr, Ert. exact Hb1. }
+  assert (B5 : at_ sig (5 + N.of_nat Lr) = N.of_nat Ls).
+  { unfold at_, sig. replace (N.to_nat (5 + N.of_nat Lr)) with (4 + length cr + 1)%nat by (fold Lr; lia).
+    rewrite nth_skip4. unfold rest. cbn [nth]. apply b2n_n2b. lia. }
+  assert (B4 : at_ sig (N.of_nat Lr + 4) = 2).
+  { unfold at_, sig. replace (N.to_nat (N.of_nat Lr + 4)) with (4 + length cr + 0)%nat by (fold Lr; lia).
+    rewrite nth_skip4. reflexivity. }
+  assert (B6 : at_ sig (N.of_nat Lr + 6) = b2n s0).
+  { unfold at_, sig. replace (N.to_nat (N.of_nat Lr + 6)) with (4 + length cr + 2)%nat by (fold Lr; lia).
+    rewrite nth_skip4. unfold rest. cbn [nth]. rewrite Ecs. reflexivity. }
+  assert (B7 : (1 < Ls)%nat -> b2n s0 = 0 -> 128 <= at_ sig (N.of_nat Lr + 7)).
+  { intros H1 H0. destruct (Hs1 H0) as (b1 & tl' & Est & Hb1).
+    unfold at_, sig. replace (N.to_nat (N.of_nat Lr + 7)) with (4 + length cr + 3)%nat by (fold Lr; lia).
+    rewrite nth_skip4. unfold rest. cbn [nth]. rewrite Ecs, Est. exact Hb1. }
+  assert (Hr0' : N.land (b2n r0) 128 = 0) by (apply byte_small; lia).
+  assert (Hs0' : N.land (b2n s0) 128 = 0) by (apply byte_small; lia).
+  assert (C5 : (1 < Lr)%nat -> b2n r0 = 0 -> N.land (at_ sig 5) 128 = 128).
+  { intros H1 H0. apply byte_big. apply A5; assumption. }
+  assert (C7 : (1 < Ls)%nat -> b2n s0 = 0 -> N.land (at_ sig (N.of_nat Lr + 7)) 128 = 128).
+  { intros H1 H0. apply byte_big. apply B7; assumption. }
+  clearbody sig T. clear Hr1 Hs1 A5 B7 Ecr Ecs.
+  unfold bip66_valid. rewrite Hsize, A0, A1, A2, A3, B5, A4, B4, B6, Hr0', Hs0'.
+  repeat match goal with
+  | |- (if ?c then _ else _) = true => let E := fresh "E" in destruct c eqn:E; try lia
+  end.
+Qed.
+
+Lemma encode_length_short n : (n < 128)%nat -> encode_length (Z.of_nat n) = Ret [n2b (N.of_nat n)].
+Proof.
+  intros H. unfold encode_length.
+  destruct (Z.of_nat n <? 0)%Z eqn:E0; [lia|]. destruct (Z.of_nat n <? 128)%Z eqn:E1; [|lia].
+  rewrite <- nat_N_Z, N2Z.id. reflexivity.
+Qed.
+
+Lemma der_bip66 r s ht : (1 <= r < 2 ^ 256)%Z -> (1 <= s < 2 ^ 256)%Z ->
+  exists sig, sigencode_der r s = Ret sig /\ bip66_valid (sig ++ [ht]) = true.
+Proof.
+  intros Hr Hs.
+  assert (Hr' : (0 <= r < 2 ^ 1015)%Z) by (split; [lia|]; eapply Z.lt_trans; [apply Hr|reflexivity]).
+  assert (Hs' : (0 <= s < 2 ^ 1015)%Z) by (split; [lia|]; eapply Z.lt_trans; [apply Hs|reflexivity]).
+  destruct (sigencode_layout r s Hr' Hs') as (er & es & el & Er & Es & Eel & Esig & _).
+  assert (Hlr : (length (der_content (Z.to_N r)) <= 33)%nat).
+  { apply (der_content_length_bound _ 32).
+    assert (Z.to_N r < Z.to_N (2 ^ 256)) by lia.
+    change (Z.to_N (2 ^ 256)) with (256 ^ N.of_nat 32) in H.
+    pose proof (pow256_pos (N.of_nat 32)). lia. }
+  assert (Hls : (length (der_content (Z.to_N s)) <= 33)%nat).
+  { apply (der_content_length_bound _ 32).
+    assert (Z.to_N s < Z.to_N (2 ^ 256)) by lia.
+    change (Z.to_N (2 ^ 256)) with (256 ^ N.of_nat 32) in H.
+    pose proof (pow256_pos (N.of_nat 32)). lia. }
+  rewrite encode_integer_spec in Er by lia. rewrite encode_integer_spec in Es by lia.
+  injection Er as <-. injection Es as <-.
+  destruct (der_content_shape (Z.to_N r) ltac:(lia)) as (r0 & rt & Ecr & Hr0 & Hr1).
+  destruct (der_content_shape (Z.to_N s) ltac:(lia)) as (s0 & st & Ecs & Hs0 & Hs1).
+  eexists; split; [exact Esig|].
+  rewrite encode_length_short in Eel by (rewrite app_length; cbn [length]; lia).
+  injection Eel as <-.
+  pose proof (bip66_layout _ _ ht r0 s0 rt st Ecr Ecs Hr0 Hs0 Hr1 Hs1 Hlr Hls) as HB.
+  rewrite app_length.
+  cbn [app] in *. rewrite <- app_assoc. cbn [app]. exact HB.
 Qed.
